@@ -18,7 +18,7 @@ CFG = {
              "frame); distinct = by hash of the case"),
     "theorem_names": ["identity_preserved", "identity_preserved_host", "errobj_stack_preserved", "goerror_recoverable",
                       "goerror_recoverable_host", "goerror_catchable", "uncatchable_invisible", "uncatchable_host",
-                      "uncatchable_invisible_case", "uncatchable_join_refuted", "foreign_propagates", "foreign_host",
+                      "uncatchable_invisible_case", "join_stays_uncatchable", "foreign_propagates", "foreign_host",
                       "plain_error_panic_propagates", "rethrow_identity", "job_exception_contained"],
     "allowed_axioms": [],
     "trusted_base": [
@@ -33,7 +33,6 @@ CFG = {
     ],
     "assumptions": [
         "object identity is observed through pointer equality/SameAs and compared as first-occurrence indices",
-        "a live Interrupt is never combined with a native frame that errors.Join's it (the flag stays set while unwinding)",
         "iterator return() / generator frames during uncatchable unwinding belong to C08/C03 (F12, F16), not to this model",
         "the implementation is tied to the model only on the generated chains (correspondence), not by proof",
     ],
@@ -44,7 +43,7 @@ CFG = {
                  "every JS catch, every intermediate Go caller and the embedder through all transparent frames (identity_preserved); a "
                  "Go error stays recoverable by errors.Is through any wrapping/re-wrapping/unwrapping frames and is a catchable GoError "
                  "in script (goerror_recoverable, goerror_catchable); Interrupted/StackOverflow errors reach no catch, finally or "
-                 "rejection handler (uncatchable_invisible; the errors.Join carve-out is exhibited by uncatchable_join_refuted); a "
+                 "rejection handler (uncatchable_invisible, for every chain incl. errors.Join'ing natives since fix 63ed9d0); a "
                  "foreign panic crosses every chain unchanged (foreign_propagates); catch-and-rethrow preserves the value and a frame "
                  "without catch passes on the very same *Exception (rethrow_identity). 15 theorems, no axioms. The model is tied to "
                  "/repo on every run by building 3000 (quick) / 200000 (thorough) chains as real JS + Go closures and comparing what "
